@@ -140,6 +140,8 @@ class Ctx:
         self.stores: List[Any] = []
         self.global_cache: Dict[Any, Any] = {}
         self.yielded: List[Any] = []
+        self.call_log: List[Any] = []  # calls made through contracts on this path, in order (ghost; see speclib.CALLS)
+        self.entry_measure = None
 
     # ---- fresh symbols
     def fresh(self, base: str, sort):
@@ -539,6 +541,9 @@ class Engine:
                 return self.py_eq(ctx, a.term, b.term)
             return False
         if isinstance(a, Obj) and isinstance(b, Obj):
+            hook = self.eq_spec(a, b)
+            if hook is not None:
+                return hook
             m = a.cls.lookup("__eq__")
             if m is not None:
                 r = self.call_function(ctx, m, [a, b], {})
@@ -575,6 +580,22 @@ class Engine:
         if type(a) is not type(b):
             return False
         raise EngineLimit("== of %r and %r" % (a, b))
+
+    def eq_spec(self, a: Obj, b: Obj):
+        """Interface contract of `==` declared by a class specification (`eq(a, b)` -> clause) for a hierarchy whose
+           abstract base does not define __eq__ while implementations do (dynamic dispatch of == on a non-exact receiver).
+           Applies when either operand is a non-exact object of such a hierarchy; the implementations' __eq__ are
+           obligated to the same clause by their own contracts."""
+        if a.exact and a.cls.lookup("__eq__") is not None:
+            return None  # exact receiver with its own __eq__: the real method is used (contract / inlining)
+        for c in a.cls.mro():
+            cs = self.reg.classes.get(c.qualname)
+            fn = getattr(cs, "eq", None) if cs else None
+            if fn is not None and b.cls.is_subclass_of(c):
+                ctx = speclib.CTX or a.ctx
+                r = self.run_spec(ctx, fn, a, b) if speclib.CTX is None else fn(a, b)
+                return lift_bool(r) if not isinstance(r, bool) else r
+        return None
 
     def class_tag_eq(self, ctx, a, b):
         def tag(v):
@@ -814,6 +835,8 @@ class Engine:
         ns = NS(**{("self" if (self_obj is not None and k == all_args[0].arg) else k): v for k, v in args.items()})
         ns.__dict__["ctx"] = ctx
         if self_obj is not None and not is_init:
+            ns.__dict__["old"] = NS(**dict(self_obj.fields))  # field values at entry (for two-state postconditions)
+        if self_obj is not None and not is_init:
             for label, inv in self.class_invariants(ctx, self_obj):
                 ctx.assume(lift_bool(inv))
         for label, c in self.run_spec(ctx, lambda: contract.clauses("pre", ns)):
@@ -821,6 +844,9 @@ class Engine:
         if res is not None and res.entry_pc is None:
             res.entry_pc = list(ctx.pc)
             res.entry_axioms = list(ctx.axioms)
+        ctx.entry_measure = None
+        if contract.decreases is not None:
+            ctx.entry_measure = tuple(self.run_spec(ctx, contract.decreases, ns))
         env = Env(finfo.module, None, finfo)
         env.vars.update(args)
         outcome = None
@@ -874,17 +900,32 @@ class Engine:
         if matched is None:
             for xname in contract.may_raise:
                 if self.exc_matches(exc, xname):
+                    self._check_raise_post(ctx, contract, ns, exc)
                     return
             ctx.oblige("%s/noraise#%s" % (short(ctx.func), exc.clsname), z3.BoolVal(False), kind="noraise",
                        info={"exception": exc.clsname, "origin": exc.fields.get("__origin__")})
             return
         cond = contract.raises[matched]
+        self._check_raise_post(ctx, contract, ns, exc)
         if cond is None:
             return
         ns.__dict__["exc"] = exc
         c = self.run_spec(ctx, cond, ns)
         ctx.oblige("%s/raises#%s" % (short(ctx.func), matched), lift_bool(c), kind="raises",
                    info={"origin": exc.fields.get("__origin__")})
+
+    def _check_raise_post(self, ctx: Ctx, contract: Contract, ns: NS, exc: ExcVal):
+        """Exceptional postconditions (`raises_post`: exception class name -> fn(s) -> dict label -> clause): what holds
+           of the final state whenever an exception of that class escapes (one-sided, e.g. frame conditions)."""
+        rp = getattr(contract.impl, "raises_post", None)
+        if not rp:
+            return
+        ns.__dict__["exc"] = exc
+        for xname, fn in rp.items():
+            if self.exc_matches(exc, xname):
+                r = self.run_spec(ctx, fn, ns)
+                for label, c in (r.items() if isinstance(r, dict) else enumerate(r or [])):
+                    ctx.oblige("%s/raises-post#%s#%s" % (short(ctx.func), xname, label), lift_bool(c), kind="raises")
 
     def exc_matches(self, exc: ExcVal, name: str) -> bool:
         if isinstance(exc.cls, ClassInfo):
@@ -1135,7 +1176,13 @@ class Engine:
         if isinstance(target, ast.Name):
             env.vars[target.id] = v
         elif isinstance(target, (ast.Tuple, ast.List)):
-            items = self.iter_concrete(ctx, v)
+            if isinstance(v, SymSeq) and not any(isinstance(t, ast.Starred) for t in target.elts):
+                # unpacking a symbolic-length sequence: ValueError unless the length is exactly the number of targets
+                if not ctx.decide(v.length == len(target.elts)):
+                    raise PyRaise(ExcVal(V.ExtClass("ValueError")))
+                items = [v.at(ctx, z3.IntVal(k)) for k in range(len(target.elts))]
+            else:
+                items = self.iter_concrete(ctx, v)
             if len(items) != len(target.elts):
                 raise PyRaise(ExcVal(V.ExtClass("ValueError")))
             for t, x in zip(target.elts, items):
@@ -1303,6 +1350,17 @@ class Engine:
             vals = [self.truth(ctx, self.eval(ctx, v, env)) for v in e.values]
             if all(isinstance(v, (bool, z3.BoolRef)) for v in vals):
                 return speclib_and(*vals) if is_and else speclib_or(*vals)
+        if getattr(ctx, "pure_bool", 0):
+            # predicate of a filter over a symbolic sequence: every operand is evaluated (no short-circuit fork); this is
+            # accepted only if no operand takes a decision or raises (then the strict and the lazy reading coincide)
+            n0 = len(ctx.taken)
+            try:
+                vals = [self.truth(ctx, self.eval(ctx, v, env)) for v in e.values]
+            except PyRaise:
+                raise EngineLimit("an operand of and/or inside a symbolic filter predicate may raise")
+            if len(ctx.taken) != n0 or not all(isinstance(v, (bool, z3.BoolRef)) for v in vals):
+                raise EngineLimit("an operand of and/or inside a symbolic filter predicate branches")
+            return speclib_and(*vals) if is_and else speclib_or(*vals)
         last = None
         for i, sub in enumerate(e.values):
             last = self.eval(ctx, sub, env)
@@ -1714,6 +1772,16 @@ class Engine:
         for label, c in self.run_spec(ctx, lambda: contract.clauses("pre", ns)):
             ctx.oblige("%s/pre#%s#%s" % (short(ctx.func), callee, label), lift_bool(c), kind="pre")
             ctx.assume(lift_bool(c))
+        if contract.decreases is not None and getattr(ctx, "entry_measure", None) is not None and not ctx.spec_mode:
+            # recursion group: the callee's termination measure must be lexicographically below the measure that the
+            # function under verification had at entry, and bounded below
+            cm = tuple(self.run_spec(ctx, contract.decreases, ns))
+            ctx.oblige("%s/decreases#%s" % (short(ctx.func), callee), lex_less(cm, ctx.entry_measure), kind="decreases")
+        log_entry = None
+        if not ctx.spec_mode:
+            log_entry = {"callee": contract.qualname, "ns": ns, "index": len(ctx.call_log), "result": None,
+                         "returned": False}
+            ctx.call_log.append(log_entry)
         # exceptional outcomes: the callee may raise any X whose condition holds, and returns normally only if none does
         pending_raise = False
         names = list(contract.raises.items())
@@ -1739,7 +1807,9 @@ class Engine:
             selfv = ns.self
             self.havoc_init_fields(ctx, selfv, finfo.cls)
         else:
-            if contract.returns is not None:
+            if contract.value is not None:
+                result = self.run_spec(ctx, contract.value, ns)
+            elif contract.returns is not None:
                 result = ctx.fresh_kind("ret!" + finfo.name, contract.returns)
                 self.assume_wellformed(ctx, result)
             if contract.modifies and isinstance(nsd.get("self"), Obj) and nsd["self"].fields is not None:
@@ -1748,6 +1818,9 @@ class Engine:
                     if k is not None:
                         nsd["self"].fields[fname] = ctx.fresh_kind("havoc." + fname, k)
         ns.__dict__["result"] = result
+        if log_entry is not None:
+            log_entry["result"] = result
+            log_entry["returned"] = True
         for label, c in self.run_spec(ctx, lambda: contract.clauses("post", ns)):
             ctx.assume(lift_bool(c))
         if is_init:
@@ -1956,6 +2029,19 @@ def _accepts_skip(fn) -> bool:
 
 def contract_cls(engine, contract, cls):
     return cls
+
+
+def lex_less(a, b):
+    """(a1, a2, ...) < (b1, b2, ...) lexicographically over the naturals (every component of `a` is also >= 0)."""
+    def t(x):
+        return z3.IntVal(x) if isinstance(x, int) else x
+
+    a, b = [t(x) for x in a], [t(x) for x in b]
+    n = min(len(a), len(b))
+    alts = []
+    for k in range(n):
+        alts.append(z3.And(*([a[j] == b[j] for j in range(k)] + [a[k] < b[k]])))
+    return z3.And(z3.And(*[x >= 0 for x in a]), z3.Or(*alts))
 
 
 def speclib_and(*xs):
